@@ -97,7 +97,7 @@ KINDS = {'InsufficientUTxOBalanceException', 'MaxInputCountExceededException', '
 def handler(case, payload):
     c = case['ctx']
     ctx = long_lived(Ctx, c['a'], c['b'], c['cpb'], c['ex'])
-    pool = [UTxO(TransactionInput.from_primitive([bytes([7]) * 32, i]), TransactionOutput(ADDR, Value(v[0], mk_ma(v[1]))))
+    pool = [wire(UTxO(TransactionInput.from_primitive([bytes([7]) * 32, i]), TransactionOutput(ADDR, Value(v[0], mk_ma(v[1])))))
             for i, v in enumerate(case['pool'])]
     outs = [TransactionOutput(ADDR, Value(v[0], mk_ma(v[1]))) for v in case['outs']]
     before_objs = list(pool)
